@@ -280,6 +280,21 @@ def r04_mol(chk, cr):
     mol = defs.get("mol")
     chk.need(mol is not None and call_name(mol.as_atom() or ()) and "from_arrays" in call_name(mol.as_atom()), f"{q}: Molecule.from_arrays call not found")
     kw = dict(mol.as_atom()[3]) if len(mol.as_atom()) > 3 else {}
+    for i_, pn_ in enumerate(("elements", "positions")):          # Molecule.from_arrays(elements, positions, ...): the first two may be positional
+        if pn_ not in kw and len(mol.as_atom()[2]) > i_:
+            kw[pn_] = mol.as_atom()[2][i_]
+    # a local that names the composed index nodes[reorder] stands for that chain
+    composed = {P.atom(kk).key() for kk, v in ev.defs.items() if kk[0] == "local" and v is not None and v.key() == "$nodes[$reorder]"}
+    from .generic import index_chain as _ic
+
+    def index_chain(t):          # noqa: F811
+        root, ops = _ic(t)
+        if not composed:
+            return root, ops
+        out = []
+        for o in ([root] if root in composed else []) + ops:
+            out.extend(["$nodes", "$reorder"] if o in composed else [o])
+        return ("$nodes" if root in composed else root), (out[1:] if root in composed else out)
     if chk.want("R04.1"):
         # the image of an atom is its unit-cell site PLUS the accumulated cell shift (the shifts were accumulated with the sign of the
         # stored edge offsets; subtracting them puts every bonded neighbour on the wrong side)
@@ -368,7 +383,8 @@ def r04_mol(chk, cr):
     if chk.want("R04.4"):
         cc = defs.get("n_uc_mols")
         um = defs.get("uc_mols")
-        okcc = cc is not None and "connected_components" in cc.key() and "directed=False" in cc.key() and "csgraph=$uc_graph" in cc.key() \
+        okcc = cc is not None and "connected_components" in cc.key() and "directed=False" in cc.key() \
+            and ("csgraph=$uc_graph" in cc.key() or "connected_components($uc_graph," in cc.key()) \
             and cc.key().endswith("[0]") and um is not None and um.key().endswith("[1]")
         chk.ob("R04.4", CR, q, "components come from an undirected connected_components of the bond graph (count, labels)", okcc, found=str(cc))
         loops = [l for l in ev.all_loops if l.kind == "range"]
@@ -382,7 +398,8 @@ def r04_mol(chk, cr):
                found=f"{loops[0].lo if loops else None}..{loops[0].hi if loops else None}; nodes={nodes}")
         bf = defs.get("ordered")
         chk.ob("R04.4", CR, q, "the breadth-first walk is undirected and starts at the component's first atom",
-               bf is not None and "directed=False" in bf.key() and "i_start=$nodes[0]" in bf.key() and "csgraph=$uc_graph" in bf.key(), found=str(bf))
+               bf is not None and "directed=False" in bf.key() and (("i_start=$nodes[0]" in bf.key() and "csgraph=$uc_graph" in bf.key())
+                                                                     or "breadth_first_order($uc_graph, $nodes[0]," in bf.key()), found=str(bf))
         g = defs.get("uc_graph")
         chk.ob("R04.4", CR, q, "graph and edge cells come from unit_cell_connectivity, in that order",
                g is not None and g.key().endswith("[0]") and ".unit_cell_connectivity(" in g.key() and defs["edge_cells"].key().endswith("[1]"), found=str(g))
